@@ -12,12 +12,16 @@ package main
 
 import (
 	"fmt"
+	"math/big"
 	"os"
 	"runtime/debug"
 	"runtime/pprof"
 	"strconv"
 	"strings"
 	"time"
+
+	"github.com/bronlabs/bron-crypto/pkg/base/curves/k256"
+	"github.com/bronlabs/bron-crypto/pkg/base/curves/p256"
 
 	"verif/harness/internal/vh"
 )
@@ -147,6 +151,24 @@ func replay(r *run, path string) {
 		c := strings.TrimSpace(strings.TrimPrefix(l, "case: "))
 		f := strings.Split(c, ":")
 		switch f[0] {
+		case "ecdsawire":
+			kxy := func(x, y *big.Int) (*k256.Point, error) {
+				return k256.NewCurve().FromUncompressed(append(append([]byte{4}, x.FillBytes(make([]byte, 32))...), y.FillBytes(make([]byte, 32))...))
+			}
+			pxy := func(x, y *big.Int) (*p256.Point, error) {
+				return p256.NewCurve().FromUncompressed(append(append([]byte{4}, x.FillBytes(make([]byte, 32))...), y.FillBytes(make([]byte, 32))...))
+			}
+			if len(f) >= 4 && f[1] == "p256" {
+				ecdsaWire(r, p256Env(), pxy, hashByName(f[2]), atoi(f[3]))
+			} else if len(f) >= 4 {
+				ecdsaWire(r, k256Env(), kxy, hashByName(f[2]), atoi(f[3]))
+			}
+		case "blswire":
+			if len(f) >= 3 && f[1] == "long" {
+				blsWire(r, longEnv(), atoi(f[2]))
+			} else if len(f) >= 3 {
+				blsWire(r, shortEnv(), atoi(f[2]))
+			}
 		case "ecdsa":
 			replayEcdsa(r, f)
 		case "schnorr", "bip340", "mina":
